@@ -1,14 +1,14 @@
 #!/bin/bash
 # tools/run_all.sh [tier] [seed] [parallel]: run every claimed check on the unchanged tree, summarise.
 TIER=${1:-quick}; SEED=${2:-0}; PAR=${3:-4}
-cd /verif
-mkdir -p /var/tmp/coord/runall
+cd "$(dirname "$0")/.."
+LOGD=${RUNALL_LOGS:-/var/tmp/coord/runall}; mkdir -p $LOGD
 python3 -c "import json;print(' '.join(c['property_id'] for c in json.load(open('MANIFEST.json'))['checks']))" | tr ' ' '\n' | \
-  xargs -P $PAR -I{} bash -c "VERIF_SEED=$SEED ./check {} --tier $TIER > /var/tmp/coord/runall/{}.log 2>&1; echo \"{} exit=\$? \$(grep -c '^VIOLATION' /var/tmp/coord/runall/{}.log) violations; \$(tail -1 /var/tmp/coord/runall/{}.log | cut -c1-150)\""
+  xargs -P $PAR -I{} bash -c "VERIF_SEED=$SEED ./check {} --tier $TIER > $LOGD/{}.log 2>&1; echo \"{} exit=\$? \$(grep -c '^VIOLATION' $LOGD/{}.log) violations; \$(tail -1 $LOGD/{}.log | cut -c1-150)\""
 python3-vt - <<'PY'
 import json, jsonschema, glob
 sch=json.load(open('/root/.vp/EVIDENCE.schema.json'))
-for f in sorted(glob.glob('/verif/evidence/C??.json')):
+for f in sorted(glob.glob('evidence/C??.json')):
     e=json.load(open(f))
     try:
         jsonschema.validate(e, sch); ok='valid'
